@@ -73,6 +73,9 @@ POOL = [
     mk(11, 'Tie', 'Shop', 'Tools', 15.0, [], 5),
     mk(12, 'Tie', 'Food', 'Out', 60.0, [], 4),
     mk(13, 'Tie', 'Auto', 'Fuel', -60.0, ['refund'], 6),
+    # a transaction whose description is blank (a description template filled from blank cells) counts like any other, in every grouping
+    dict(mk(14, 'Blank', 'Misc', 'None', 30.0, [], 7), description=' ', raw_description=' '),
+    dict(mk(15, 'Blank', 'Misc', 'None', 12.5, [], 8), description='', raw_description=''),
 ]
 
 
@@ -195,6 +198,8 @@ def main():
             check_list(list(idx))
             if n >= 2 and list(idx) == sorted(idx):
                 check_perm_split(list(idx))
+    for idx in ([14], [15], [0, 14, 15], [14, 3, 15, 2]):
+        check_list(idx)
     for idx in ([10, 11, 12], [12, 13], [10, 11, 12, 13], [3, 10, 11, 12]):
         check_list(idx)
         check_perm_split(idx)
